@@ -348,6 +348,31 @@ def fitted_ensures(ql):
     return (f"//@   ensures [nonempty] result1 == nil ==> len(result0) > 0\n"
             f"//@   ensures [zero] result1 == nil ==> {O(fp('result0[0]','a.start'), fp('result0[0]','b.start'))} == 0\n"
             f"//@   ensures [qend] result1 == nil ==> {fp('result0[len(result0)-1]','b.end')} == len(qSeq)\n")
+
+# ---- the Align entry points of the linear-gap aligners: what the kernels guarantee, said of the arguments' own
+# slices and alphabet (C08/C09 at the public interface) ----
+def wrapper(kind, recv):
+    req = "reference != nil && query != nil" + (" && sliceLen(query) > 0" if kind == 'fitted' else "")
+    out = [f"//@ func ({recv}).Align", "//@   property C09", "//@   property C08", "//@   maypanic", f"//@   requires {req}",
+           "//@   ensures [no-alphabet] alphaOf(reference) == nil ==> result1 != nil",
+           "//@   ensures [alphabets]   alphaOf(reference) != alphaOf(query) ==> result1 != nil",
+           "//@   ensures [types]       sliceKind(reference) != sliceKind(query) ==> result1 != nil"]
+    for ql in (False, True):
+        T = 'alphabet.QLetters' if ql else 'alphabet.Letters'
+        tag = 'q' if ql else 'l'
+        ens = ENSPAIRS + tb_ensures(kind, ql)
+        if kind == 'nw':
+            ens += "//@   ensures [spans] result1 == nil ==> len(result0) > 0 && result0[0].(*featPair).a.start == 0 && result0[0].(*featPair).b.start == 0 && result0[len(result0)-1].(*featPair).a.end == len(rSeq) && result0[len(result0)-1].(*featPair).b.end == len(qSeq)\n"
+        if kind == 'sw':
+            ens += sw_ensures(ql)
+        if kind == 'fitted':
+            ens += fitted_ensures(ql)
+        for line in ens.strip().split("\n"):
+            assert line.startswith("//@   ensures [")
+            lab, body = line[len("//@   ensures ["):].split("] ", 1)
+            body = body.replace("rSeq", f"sliceOf(reference).({T})").replace("qSeq", f"sliceOf(query).({T})").replace("alpha,", "alphaOf(reference),")
+            out.append(f"//@   ensures [{lab}-{tag}] typeis(sliceOf(reference), {T}) && typeis(sliceOf(query), {T}) ==> ({body})")
+    return "\n".join(out) + "\n"
 def q(s):
     # quality letters: the letter of element k is rSeq[k].L
     return s.replace('rSeq[k]', 'rSeq[k].L').replace('qSeq[k]', 'qSeq[k].L').replace('rSeq[i-1]', 'rSeq[i-1].L')
@@ -364,6 +389,8 @@ for mk, recv, kind in ((nw, 'NW', 'nw'), (sw, 'SW', 'sw'), (fitted, 'Fitted', 'f
             ens = tb_ensures(kind, ql) + (sw_ensures(ql) if kind == 'sw' else '') + (fitted_ensures(ql) if kind == 'fitted' else '')
             c = c.replace('//@   loop 1 invariant', ens + '//@   loop 1 invariant', 1) + tb_lines(kind, ql, *TB[kind]) + (sw_lines(ql) if kind == 'sw' else '') + (fitted_lines(ql) if kind == 'fitted' else '')
         out.append(c)
+for kind, recv in (('nw', 'NW'), ('sw', 'SW'), ('fitted', 'Fitted')):
+    out.append(wrapper(kind, recv))
 out.append(nwaffine('NWAffine', 'alignLetters'))
 out.append(q(nwaffine('NWAffine', 'alignQLetters')))
 out.append(swaffine('SWAffine', 'alignLetters'))
